@@ -81,6 +81,22 @@ namespace vh {
     Tk &inner() { return member; }
   };
 
+  /// converts to an instrumented object by a user conversion that makes a NEW Tk (C11: converted temporaries)
+  struct TkSrc {
+    int v = 7;
+  };
+
+  /// polymorphic hierarchy whose objects carry an instrumented member (C11: values converted down / up the hierarchy)
+  struct PB {
+    virtual ~PB() = default;
+    PB() = default;
+    PB(const PB &) = default;
+    Tk probe{31};
+  };
+  struct PD : PB {
+    int extra = 1;
+  };
+
   struct BaseC {
     virtual ~BaseC() = default;
     int b = 1;
@@ -115,6 +131,11 @@ namespace vh {
     Tk c_tk{7};
     // values handed to the engine with const_var (the engine holds the object; the driver keeps a handle to read it)
     Boxed_Value cv_int, cv_str, cv_vec, cv_map;
+    // NON-const C++ objects handed to the engine as const views: const_var(std::ref(x)), const_var(&x), const_var(shared_ptr<T>)
+    int x_int = 41;
+    std::string x_str = "cstr";
+    int xp_int = 41;
+    std::shared_ptr<Tk> xsp_tk = std::make_shared<Tk>(8);
     std::shared_ptr<const Tk> csp_tk = std::make_shared<const Tk>(8);
     std::shared_ptr<Tk> kept; ///< a shared_ptr the C++ side keeps past the script's scopes (C11)
     // mutable controls shared with the engine: the same chains and mutators must SUCCEED on them (C07 vacuity guard)
@@ -196,6 +217,20 @@ namespace vh {
       chai.add(fun(&Holder::member), "member");
       chai.add(fun([]() { return Holder(); }), "make_holder");
       chai.add(fun([](std::vector<Tk> &v) -> Tk & { return v.front(); }), "first_of");
+      // a converted temporary handed to a C++ function that returns a reference / pointer to its parameter
+      chai.add(user_type<TkSrc>(), "TkSrc");
+      chai.add(constructor<TkSrc()>(), "TkSrc");
+      chai.add(type_conversion<TkSrc, Tk>([](const TkSrc &src) { return Tk(src.v); }));
+      chai.add(fun([](const Tk &t) -> const Tk & { return t.check(); }), "tk_ident");
+      chai.add(fun([](const Tk *t) -> const Tk * { t->check(); return t; }), "tk_ident_p");
+      chai.add(user_type<PB>(), "PB");
+      chai.add(user_type<PD>(), "PD");
+      chai.add(base_class<PB, PD>());
+      chai.add(constructor<PB(const PB &)>(), "PB");
+      chai.add(constructor<PD(const PD &)>(), "PD");
+      chai.add(fun([]() -> std::shared_ptr<PB> { return std::make_shared<PD>(); }), "make_pb_really_pd");
+      chai.add(fun([]() { return std::make_shared<PD>(); }), "make_pd_sp");
+      chai.add(fun([](const PB &b) { return b.probe.get(); }), "get");
       chai.add(fun([this](std::shared_ptr<Tk> t) { kept = std::move(t); }), "tk_keep_sp");
       chai.add(fun([this]() { return kept ? kept->get() : -1; }), "tk_kept_get");
       chai.add(fun([this]() { kept.reset(); }), "tk_drop_kept");
@@ -240,6 +275,18 @@ namespace vh {
       chai.add_global_const(cv_map, "CV_MAP");
       chai.add_global_const(Boxed_Value(std::cref(c_int)), "CW_INT");
       chai.add_global_const(Boxed_Value(csp_tk), "CSP_TK");
+      // (should const_var ever hand back something that is not const, the value is still made visible: the check then sees it being modified)
+      const auto add_view = [&chai](const Boxed_Value &v, const std::string &name) {
+        try {
+          chai.add_global_const(v, name);
+        } catch (const chaiscript::exception::global_non_const &) {
+          chai.add_global(v, name);
+        }
+      };
+      add_view(const_var(std::ref(x_int)), "CX_INT");
+      add_view(const_var(std::ref(x_str)), "CX_STR");
+      add_view(const_var(&xp_int), "CXP_INT");
+      add_view(const_var(xsp_tk), "CXSP_TK");
       *nc_vec = {var(1), var(2)};
       *nc_map = {{"a", var(1)}, {"b", var(2)}};
       chai.add_global(var(nc_int), "NC_INT");
@@ -261,6 +308,7 @@ namespace vh {
         r += ",\"c_tk\":" + std::to_string(c_tk.m_v);
         r += ",\"cv_int\":" + jstr(render(cv_int, chai)) + ",\"cv_str\":" + jstr(render(cv_str, chai)) + ",\"cv_vec\":" + jstr(render(cv_vec, chai))
              + ",\"cv_map\":" + jstr(render(cv_map, chai)) + ",\"csp_tk\":" + std::to_string(csp_tk->m_v);
+        r += ",\"x_int\":" + std::to_string(x_int) + ",\"x_str\":" + jstr(x_str) + ",\"xp_int\":" + std::to_string(xp_int) + ",\"xsp_tk\":" + std::to_string(xsp_tk->m_v);
         r += ",\"nc_int\":" + std::to_string(*nc_int) + ",\"nc_str\":" + jstr(*nc_str) + ",\"nc_vec\":" + jstr(render(const_var(*nc_vec), chai))
              + ",\"nc_map\":" + jstr(render(const_var(*nc_map), chai)) + ",\"nc_tk\":" + std::to_string(nc_tk->m_v) + "}}";
         return r;
@@ -278,6 +326,12 @@ namespace vh {
           return Boxed_Value();
         });
         return "{\"oc\":" + jstr(o.oc) + ",\"ex\":" + jstr(o.ex) + "}";
+      }
+      if (op == "add_type_objs") {
+        // one object per type of the family, present before any snapshot: its type's NAME is what histories change
+        chai.add_global(var(TypeA()), "ta_obj");
+        chai.add_global(var(TypeB()), "tb_obj");
+        return "{\"ok\":1}";
       }
       if (op == "add_type") {
         const std::string name = st.str("name");
